@@ -103,7 +103,8 @@ def gen(rs: int, tier: str, index: int) -> dict:
         s["mode"] = "insitu"
         return s
     base = gen_start(r)
-    return {"world": "sched", "mode": "sweep", "run_seed": rs, "cases": [gen_case(r, base) for _ in range(300)]}
+    return {"world": "sched", "mode": "sweep", "run_seed": rs, "cases": [gen_case(r, base) for _ in range(300)],
+            "tz": r.choice(["UTC", "Etc/GMT-3", "Etc/GMT+7", "Asia/Kathmandu", "Asia/Tokyo", "America/Phoenix"])}
 
 
 def simulate(script: dict) -> Any:
@@ -115,7 +116,7 @@ def simulate(script: dict) -> Any:
     for c in script["cases"]:
         task = ScheduledTask(task_name="t", labels={}, args=[], kwargs={}, schedule_id="s", time=make_time(c["t"]))
         try:
-            res: Any = call_get_task_delay(task, c["now_us"])
+            res: Any = call_get_task_delay(task, c["now_us"], script.get("tz", "UTC"))
         except Exception as exc:  # noqa: BLE001
             res = "raise:" + type(exc).__name__
         ev.append([len(ev), 0, c["now_us"], "delay", {"res": res if res is None or isinstance(res, str) else [type(res).__name__, res], "t": c["t"]}])
@@ -170,7 +171,7 @@ def oracle(script: dict, run: Any) -> List[Violation]:
 
 
 def probes(script: dict, run: Any) -> Dict[str, int]:
-    res = {"within_window": 0, "exact_second_remainder": 0, "at_horizon": 0, "past": 0, "aware_zone": 0, "insitu_calls": 0, "now_on_boundary": 0, "dst_fold_window": 0, "odd_second_offset": 0}
+    res = {"within_window": 0, "exact_second_remainder": 0, "at_horizon": 0, "past": 0, "aware_zone": 0, "insitu_calls": 0, "now_on_boundary": 0, "dst_fold_window": 0, "odd_second_offset": 0, "host_zone_not_utc": int(script.get("tz", script.get("start", {}).get("tz", "UTC")) != "UTC")}
     if script["mode"] == "sweep":
         for c in script["cases"]:
             d = c["t"]["us"] - c["now_us"]
